@@ -154,6 +154,62 @@ func (p *C12) Gen(seed uint64, i int, tier string) *scen.Scenario {
 		}
 	}
 	others(r.Intn(4))
+	if r.Chance(1, 3) {
+		// a history of the flags: they leave the cell's flag set and come back to it before the cell (the
+		// SaveFlagsAndMod idiom, or AddFlags/RemoveFlags pairs); while they are away the no-interrupt flag is
+		// set, so Panic and Fatal calls made there return normally. What the cell then does is decided by the
+		// flags at the cell, not by anything the library saw or decided while they were different
+		hasNoInt, hasAlways := false, false
+		for _, f := range c.flags {
+			hasNoInt = hasNoInt || f == "LnoInterrupt"
+			hasAlways = hasAlways || f == "Linterruptalways"
+		}
+		muted := func(n int) {
+			for k := 0; k < n; k++ {
+				sev := scen.Pick(r, []int{model.Panic, model.Panic, model.Fatal})
+				entry := sevEntryName[sev]
+				if r.Chance(1, 3) {
+					entry += "Context"
+				}
+				if isPkg && r.Bool() {
+					entry = "pkg." + entry
+				}
+				tk++
+				sc.Setup = append(sc.Setup, scen.Op{Op: "log", L: l, Entry: entry, Lvl: sev, Msg: "o" + tok(tk), Tok: tok(tk)})
+			}
+		}
+		if hasNoInt {
+			muted(r.Intn(2))
+		}
+		toggle := "Linterruptalways"
+		var enter, leave scen.Op
+		if r.Bool() {
+			var mods []string
+			if !hasNoInt {
+				mods = append(mods, "LnoInterrupt")
+			}
+			if hasNoInt || r.Bool() {
+				if hasAlways {
+					mods = append(mods, "-"+toggle)
+				} else {
+					mods = append(mods, toggle)
+				}
+			}
+			enter, leave = scen.Op{Op: "save_flags", S: mods}, scen.Op{Op: "restore_flags"}
+		} else if !hasNoInt {
+			enter, leave = scen.Op{Op: "add_flags", S: []string{"LnoInterrupt"}}, scen.Op{Op: "remove_flags", S: []string{"LnoInterrupt"}}
+		} else if hasAlways {
+			enter, leave = scen.Op{Op: "remove_flags", S: []string{toggle}}, scen.Op{Op: "add_flags", S: []string{toggle}}
+		} else {
+			enter, leave = scen.Op{Op: "add_flags", S: []string{toggle}}, scen.Op{Op: "remove_flags", S: []string{toggle}}
+		}
+		sc.Setup = append(sc.Setup, enter)
+		muted(r.Intn(3))
+		if r.Bool() {
+			others(1)
+		}
+		sc.Setup = append(sc.Setup, leave)
+	}
 	tk++
 	cell := scen.Op{Op: "log", L: l, Entry: c.entry, Lvl: c.sev, Msg: "boom " + tok(tk), Tok: tok(tk), Probe: true}
 	if c.entry == "Log" {
@@ -262,17 +318,52 @@ func c12Expect(sc *scen.Scenario) (cellIdx int, cell *scen.Op, terminate bool, a
 		sev = int(cell.I)
 	}
 	admitted = model.NewRegistry().Admitted(level, sev, false)
-	noInt, always := false, false
-	for _, f := range sc.World.Flags {
-		if f == "LnoInterrupt" {
-			noInt = true
-		}
-		if f == "Linterruptalways" {
-			always = true
-		}
-	}
+	fl := c12FlagsAt(sc, upto)
+	noInt, always := fl["LnoInterrupt"], fl["Linterruptalways"]
 	terminate = admitted == model.Admit && !noInt && (sc.World.Mode == "production" || always)
 	return
+}
+
+// c12FlagsAt folds the flag operations of the set-up list before index upto over the flags the world starts with:
+// the two flags the statement speaks about, as they are when op upto runs.
+func c12FlagsAt(sc *scen.Scenario, upto int) map[string]bool {
+	fl := map[string]bool{}
+	for _, f := range sc.World.Flags {
+		fl[f] = true
+	}
+	var saved []map[string]bool
+	for i := 0; i < upto && i < len(sc.Setup); i++ {
+		op := &sc.Setup[i]
+		switch op.Op {
+		case "add_flags":
+			for _, f := range op.S {
+				fl[f] = true
+			}
+		case "remove_flags":
+			for _, f := range op.S {
+				delete(fl, f)
+			}
+		case "save_flags":
+			c := map[string]bool{}
+			for k, v := range fl {
+				c[k] = v
+			}
+			saved = append(saved, c)
+			for _, f := range op.S {
+				if strings.HasPrefix(f, "-") {
+					delete(fl, f[1:])
+				} else {
+					fl[f] = true
+				}
+			}
+		case "restore_flags":
+			if n := len(saved); n > 0 {
+				fl = saved[n-1]
+				saved = saved[:n-1]
+			}
+		}
+	}
+	return fl
 }
 
 // DeathExpected: a Fatal cell that must terminate ends the process.
@@ -300,6 +391,12 @@ func (p *C12) WellFormed(sc *scen.Scenario) bool {
 		}
 		if op.Op == "log" && op.Tok == "" {
 			return false
+		}
+		if op.Op == "log" && !op.Probe && (op.Lvl == model.Panic || op.Lvl == model.Fatal) && !c12FlagsAt(sc, i)["LnoInterrupt"] {
+			return false // a terminating call other than the cell is only made where the statement says it returns
+		}
+		if op.Op == "set_flags" || op.Op == "reset_flags" {
+			return false // the fold of c12FlagsAt does not know the library's other flags
 		}
 	}
 	for ti := range sc.Tasks {
@@ -337,6 +434,12 @@ func (p *C12) Check(sc *scen.Scenario, run *orch.Run, env *orch.Env) []orch.Viol
 	sevName := model.LevelName(sev)
 	ops := indexOps(run)
 	where := fmt.Sprintf("entry=%s mode=%s flags=%s", cell.Entry, sc.World.Mode, strings.Join(sc.World.Flags, "+"))
+	for i := range sc.Setup {
+		if sc.Setup[i].Op == "save_flags" || sc.Setup[i].Op == "add_flags" || sc.Setup[i].Op == "remove_flags" {
+			where += " flag-history"
+			break
+		}
+	}
 	if len(sc.Tasks) > 0 {
 		where += " concurrent"
 	}
@@ -382,11 +485,8 @@ func (p *C12) Check(sc *scen.Scenario, run *orch.Run, env *orch.Env) []orch.Viol
 					// a second terminating call (the other logger is at Always, so it is admitted): it must
 					// panic with its own message exactly when this process and these flags say so, whatever
 					// the cell's call is doing at that moment
-					noInt, always := false, false
-					for _, f := range sc.World.Flags {
-						noInt = noInt || f == "LnoInterrupt"
-						always = always || f == "Linterruptalways"
-					}
+					fl := c12FlagsAt(sc, len(sc.Setup))
+					noInt, always := fl["LnoInterrupt"], fl["Linterruptalways"]
 					must := !noInt && (sc.World.Mode == "production" || always)
 					switch {
 					case must && o.Ended && o.Panic == nil:
